@@ -113,8 +113,35 @@ class Proc:
         else:
             self.p.stdin.close()
 
-    def open(self):
-        host, port = self.addrs[0].rsplit(":", 1)
+    def greet(self):
+        """client listeners: a SOCKS5 greeting offering 'no authentication' must be answered (05 00) by EVERY announced listener"""
+        answered = 0
+        for a in self.addrs:
+            host, port = a.rsplit(":", 1)
+            try:
+                c = socket.create_connection((host.strip("[]"), int(port)), timeout=2)
+            except OSError:
+                continue
+            try:
+                c.settimeout(2.0)
+                c.sendall(b"\x05\x01\x00")
+                got = b""
+                while len(got) < 2:
+                    x = c.recv(2 - len(got))
+                    if not x:
+                        break
+                    got += x
+                if got == b"\x05\x00":
+                    answered += 1
+            except OSError:
+                pass
+            finally:
+                c.close()
+        time.sleep(0.1)      # the handlers of these connections end (the SOCKS exchange failed: connection closed)
+        return answered
+
+    def open(self, i=0):
+        host, port = self.addrs[i % len(self.addrs)].rsplit(":", 1)
         c = socket.create_connection((host.strip("[]"), int(port)), timeout=5)
         self.socks.append(c)
         time.sleep(0.05)       # accepted and handed to a handler
@@ -212,8 +239,10 @@ def run_scenario(binary, scen, scratch):
                 ev.append({"event": "Flood", "opened": n})
             elif st["a"] == "probe" and pr.addrs:
                 ev.append({"event": "Probe", "accepted": pr.probe()})
+            elif st["a"] == "greet" and pr.addrs:
+                ev.append({"event": "Greet", "listeners": len(pr.addrs), "answered": pr.greet()})
             elif st["a"] == "open" and pr.addrs:
-                pr.open()
+                pr.open(int(st.get("i") or 0))
                 ev.append({"event": "Open"})
             elif st["a"] == "close" and pr.socks:
                 pr.close()
